@@ -6,6 +6,7 @@ CONSTANTS
   CellChars <- Cells
   MaxChars = 4
   MaxCells = 4
+  MaxRaw = 0
   MaxRows = 2
   LoaderRefusesClash = TRUE
 INVARIANT TypeOK
